@@ -1,4 +1,5 @@
 import Solvor.Cut.LemmasDual
+import Solvor.Cut.MirrorLp
 /-!
 Cut: the property theorems of C17 (helper lemmas are in `Lemmas.lean` / `LemmasDual.lean`).
 
@@ -239,5 +240,130 @@ theorem optimal_claim_sound (W : Nat) (sizes d : List Nat) (y : List Rat) (plan 
 example : IsMinRolls (Fits 7 [2, 1]) [1, 4] (rolls [([1, 4], 1)]) :=
   optimal_claim_sound 7 [2, 1] [1, 4] [2/7, 1/7] [([1, 4], 1)] (by decide) (by decide +kernel)
     ((plan_checker_cs 7 [2, 1] [1, 4] [([1, 4], 1)] 1).1 (by decide)).1 (by decide +kernel)
+
+/-! ### T-model: the `solve_cg` mirror (Solvor/Cut/Mirror.lean), for all inputs
+
+None of these needs the simplex to be *correct*: they hold whatever `x` and duals the LP mirror
+returns.  Validity rests on the code's own round-up and "Demand not met" re-check and on the
+pricing DP only ever producing patterns that fit; optimality rests on the exact identity
+`LP value = duals · d` of the tableau (`Mirror.masterLP_value_eq_dual`) plus a *decidable* side
+condition the driver evaluates on every input (`dualFeasible` of the duals the mirror returned). -/
+
+open Mirror in
+/-- C17 `cg_mirror_valid`: for every cutting-stock input the mirror's status is one of four, its
+objective is the number of rolls of its plan, every pattern of the plan fits the roll, and with
+a usable status (`OPTIMAL`/`FEASIBLE`) the plan passes the verified checker. -/
+theorem cg_mirror_valid (W : Nat) (sizes d : List Nat) (maxIter : Nat) (eps : Rat)
+    (hpos : ∀ s ∈ sizes, 0 < s) :
+    let o := cgCuttingStock W sizes d maxIter eps
+    (o.status = "OPTIMAL" ∨ o.status = "FEASIBLE" ∨ o.status = "INFEASIBLE" ∨ o.status = "OverflowError") ∧
+    o.total = rolls o.plan ∧ (∀ pc ∈ o.plan, Fits W sizes pc.1) ∧
+    ((o.status = "OPTIMAL" ∨ o.status = "FEASIBLE") → checkPlan (fitsB W sizes) d o.plan o.total = true) := by
+  intro o
+  have hfit : ∀ pc ∈ o.plan, Fits W sizes pc.1 := by
+    intro pc hpc
+    have := roundUp_mem _ _ _ pc hpc
+    exact csLoop_fit W sizes d eps hpos maxIter 0 _ (initPats_fit W sizes d) _ this
+  refine ⟨finishStatus_cases _ _ _ _ _ _, rfl, hfit, ?_⟩
+  intro hu
+  have hc := finishStatus_usable_covers _ _ _ _ _ hu
+  exact (plan_checker_cs W sizes d o.plan o.total).2
+    ⟨⟨hfit, unmetB_false_covers _ _ hc⟩, rfl⟩
+
+-- non-vacuity: on the witness instance the mirror answers FEASIBLE with the 2-roll plan of solve_cg
+example : (Mirror.cgCuttingStock 7 [2, 1] [1, 4] 1000 Solvor.Gen.Cut.cgEps).status = "FEASIBLE" ∧
+    (Mirror.cgCuttingStock 7 [2, 1] [1, 4] 1000 Solvor.Gen.Cut.cgEps).plan = [([0, 7], 1), ([3, 1], 1)] := by
+  decide +kernel
+
+theorem ceil_sub_le_ceil (q eps : Rat) (h : 0 ≤ eps) : (q - eps).ceil ≤ q.ceil := by
+  rw [Rat.ceil_le_iff]
+  have := Rat.le_ceil (x := q)
+  linarith
+
+open Mirror in
+/-- C17 `cg_mirror_optimal_of_duals`: if the duals the mirror's final LP returned are dual
+feasible over all patterns (decided by the verified knapsack DP, evaluated by the driver on every
+input) and the mirror says `OPTIMAL`, then its plan is a true minimum.  Uses the mirror's actual
+status rule (`converged` flag, `rolls ≤ ⌈LP value − eps⌉`) and the exact identity
+`LP value = duals · d`. -/
+theorem cg_mirror_optimal_of_duals (W : Nat) (sizes d : List Nat) (maxIter : Nat) (eps : Rat)
+    (hpos : ∀ s ∈ sizes, 0 < s) (heps : 0 ≤ eps) :
+    let o := cgCuttingStock W sizes d maxIter eps
+    dualFeasible W sizes o.duals = true → o.status = "OPTIMAL" →
+    IsMinRolls (Fits W sizes) d o.total := by
+  intro o hy hs
+  obtain ⟨_, htot, _, hchk⟩ := cg_mirror_valid W sizes d maxIter eps hpos
+  have hv := ((plan_checker_cs W sizes d o.plan o.total).1 (hchk (Or.inl hs))).1
+  obtain ⟨_, q, hq, hle⟩ := finishStatus_optimal _ _ _ _ _ _ hs
+  have hq' : q = dotQ o.duals d := masterLP_value_eq_dual _ d eps q hq
+  have hb : (rolls o.plan : Int) ≤ dualBound o.duals d := by
+    unfold dualBound
+    rw [← hq']
+    exact le_trans hle (ceil_sub_le_ceil q eps heps)
+  have := optimal_claim_sound W sizes d o.duals o.plan hpos hy hv (by simpa [claimsOptimal] using hb)
+  rw [htot]; exact this
+
+open Mirror in
+/-- Variant for an arbitrary certificate `y` (the driver's scaled duals): mirror plan with usable
+status, `y` dual feasible, `rolls ≤ ⌈y·d⌉` ⇒ true minimum. -/
+theorem cg_mirror_optimal_of_bound (W : Nat) (sizes d : List Nat) (maxIter : Nat) (eps : Rat) (y : List Rat)
+    (hpos : ∀ s ∈ sizes, 0 < s) :
+    let o := cgCuttingStock W sizes d maxIter eps
+    dualFeasible W sizes y = true → (o.status = "OPTIMAL" ∨ o.status = "FEASIBLE") →
+    (o.total : Int) ≤ dualBound y d → IsMinRolls (Fits W sizes) d o.total := by
+  intro o hy hs hb
+  obtain ⟨_, htot, _, hchk⟩ := cg_mirror_valid W sizes d maxIter eps hpos
+  have hv := ((plan_checker_cs W sizes d o.plan o.total).1 (hchk hs)).1
+  have := optimal_claim_sound W sizes d y o.plan hpos hy hv (by
+    rw [htot] at hb; simpa [claimsOptimal] using hb)
+  rw [htot]; exact this
+
+open Mirror in
+/-- Custom mode (`_solve_custom` has no demand re-check): status, objective and admissibility hold
+for all inputs; coverage is what the verified checker decides per input. -/
+theorem cg_custom_mirror_valid_partial (cols init : List Pat) (d : List Nat) (maxIter : Nat) (eps : Rat) :
+    let o := cgCustom cols init d maxIter eps
+    (o.status = "OPTIMAL" ∨ o.status = "FEASIBLE" ∨ o.status = "INFEASIBLE" ∨ o.status = "OverflowError") ∧
+    o.total = rolls o.plan ∧ (∀ pc ∈ o.plan, pc.1 ∈ init ∨ pc.1 ∈ cols) := by
+  intro o
+  refine ⟨finishStatus_cases _ _ _ _ _ _, rfl, ?_⟩
+  intro pc hpc
+  exact customLoop_mem cols d eps maxIter 0 init _ (roundUp_mem _ _ _ pc hpc)
+-- FULL STATEMENT (not proved): additionally, a usable status implies
+-- `checkPlan (inColsB (init ++ cols)) d o.plan o.total = true`.  That needs primal feasibility of
+-- the LP mirror's `x` (the code has no re-check in custom mode), and the mirror's eliminations
+-- skip factors below `eps`, so `x` is feasible only up to `eps`; decided per input by `checkPlan`.
+
+open Mirror in
+/-- Custom mode: checker verdict (decidable, per input) + dual feasibility over the explicit
+column list + `OPTIMAL` ⇒ true minimum. -/
+theorem cg_custom_mirror_optimal_of_duals (cols init : List Pat) (d : List Nat) (maxIter : Nat) (eps : Rat)
+    (heps : 0 ≤ eps) :
+    let o := cgCustom cols init d maxIter eps
+    checkPlan (inColsB cols) d o.plan o.total = true → dualFeasibleCols cols o.duals = true →
+    o.status = "OPTIMAL" → IsMinRolls (InCols cols) d o.total := by
+  intro o hchk hy hs
+  have hv := ((plan_checker_cols cols d o.plan o.total).1 hchk).1
+  obtain ⟨_, q, hq, hle⟩ := finishStatus_optimal _ _ _ _ _ _ hs
+  have hq' : q = dotQ o.duals d := masterLP_value_eq_dual _ d eps q hq
+  have hb : (rolls o.plan : Int) ≤ dualBound o.duals d := by
+    unfold dualBound
+    rw [← hq']
+    exact le_trans hle (ceil_sub_le_ceil q eps heps)
+  refine ⟨⟨o.plan, hv, rfl⟩, ?_⟩
+  intro plan' hv'
+  have h1 := dual_bound_cols cols d o.duals plan' hy hv'
+  exact_mod_cast le_trans hb h1
+
+/-- [S, partial] `master-LP mirror`: the LP value the mirror reports equals `duals · d` for the
+duals it reports, on every input and whatever the pivots were (row-space invariant of the
+tableau, `Mirror.lpCore_obj`). -/
+theorem master_lp_value_is_dual_value (cols : List Pat) (d : List Nat) (eps : Rat) (o : Rat)
+    (h : (Mirror.masterLP cols d eps).2.2 = some o) : o = dotQ (Mirror.masterLP cols d eps).2.1 d :=
+  Mirror.masterLP_value_eq_dual cols d eps o h
+-- FULL STATEMENT (not proved): `master-LP mirror certifies` — on termination by optimality the
+-- returned `x` is primal feasible and the duals are dual feasible for the pool (both only up to
+-- `eps`, because eliminations with |factor| ≤ eps are skipped), hence the value is the LP optimum
+-- up to a multiple of `eps`.
 
 end Solvor.Cut
